@@ -113,6 +113,13 @@ WORLD_SCENARIOS = [
     ("close_before_expect", ["get_close", "expect_cl"], "same_read", 0),
     ("refused_then_expect", ["badcl", "expect_cl"], "same_read", 0),
     ("three_deep", ["get", "post_chunked", "expect_cl"], "same_read", 3),
+    # clients that do not wait (timer expired): body bytes may arrive before the interim response
+    ("get_then_expect_split_same", ["get", "expect_cl"], "split_same", 0),
+    ("get_then_expect_split_body", ["get", "expect_cl"], "split_body", 0),
+    ("get_then_expect_split_body_la1", ["get", "expect_cl"], "split_body", 1),
+    ("two_expecting_split_body", ["expect_cl", "expect_chunked"], "split_body", 1),
+    ("get_then_expect_eager", ["get", "expect_cl"], "eager_same", 0),
+    ("expect_expect_eager", ["expect_cl", "get", "expect_cl_case"], "eager", 2),
 ]
 
 
@@ -122,7 +129,7 @@ def scenario_reqs(kinds, rng):
         close = False
         if k == "get_close":
             k, close = "get", True
-        body = bytes(rng.choice(b"abcxyz0123") for _ in range(rng.choice([1, 3, 9, 30])))
+        body = bytes(rng.choice(b"abcxyz0123") for _ in range(rng.choice([2, 3, 9, 30])))
         reqs.append(H.Req(i, k, body, close))
     return reqs
 
@@ -134,13 +141,13 @@ def world_case(reqs, script, la, n_workers, big_first, policy=None, schedule=(),
     return w, v
 
 
-def world_replay_dict(kind, reqs, script, la, n_workers, big_first, granularity, w, what):
+def world_replay_dict(kind, reqs, script, la, n_workers, big_first, granularity, w, what, waited=()):
     return {
         "kind": kind, "failing_input_found": True,
         "requests": [r.to_json() for r in reqs],
         "client_script": [[s[0], hexb(s[1]) if isinstance(s[1], (bytes, bytearray)) else s[1]] for s in script],
         "lookahead": la, "n_workers": n_workers, "big_first": big_first, "granularity": granularity,
-        "choices": list(w.sched.choices),
+        "waited": list(waited), "choices": list(w.sched.choices),
         "expected": "C19 monitor: no problem / model step enabled with equal abstract state",
         "observed": what if isinstance(what, list) else [what],
         "wire": w.wire.decode("latin-1")[:1500],
@@ -279,14 +286,14 @@ def run(ctx):
                 kf_seen[KF_FLUSH] += 1
                 if kf_seen[KF_FLUSH] <= 1:
                     ctx.report("world:" + KF_FLUSH, "finding F18 (C04) shows as a duplicated interim response",
-                               world_replay_dict("world", reqs, script, la, nw, bf, gran, w, probs), kf_class=KF_FLUSH)
+                               world_replay_dict("world", reqs, script, la, nw, bf, gran, w, probs, waited), kf_class=KF_FLUSH)
             else:
-                mon_fail.append((reqs, script, la, nw, bf, gran, w, probs))
+                mon_fail.append((reqs, script, la, nw, bf, gran, w, probs, waited))
         if do_conf and runner_ce is not None and gran == "locks" and not race and v != "overrun":
             n, prob, choices = H.compare_run(w, runner_ce)
             steps_validated += n
             if prob:
-                conf_fail.append((reqs, script, la, nw, bf, gran, w, prob))
+                conf_fail.append((reqs, script, la, nw, bf, gran, w, prob, waited))
             else:
                 traces_validated += 1
                 if any(c.startswith("D") or c == "S" for c in choices):
@@ -315,11 +322,23 @@ def run(ctx):
                 pol = RandomPolicy(random.Random(seed), stay=0.7)
                 w, v = world_case(reqs, script, la, nw, bf, policy=pol, granularity="attrs", max_steps=8000)
                 judge(reqs, script, waited, la, nw, bf, "attrs", w, v, do_conf=False)
+    # clients that send body bytes before the interim response arrives, pre-empted at
+    # attribute-access granularity (the window between the worker's pop and its
+    # send_continue, and between the I/O thread's received() and its next readable())
+    n_attr = 1000 if thorough else 160
+    at_reqs = [H.Req(0, "get"), H.Req(1, "expect_cl", b"wxyz")]
+    for mode, la, stay, share in (("split_body", 1, 0.7, 1.0), ("split_same", 0, 0.9, 0.6), ("eager", 1, 0.8, 0.3)):
+        script, waited = H.world_script(at_reqs, mode)
+        for k in range(int(n_attr * share)):
+            pol = RandomPolicy(random.Random(rng.randrange(1 << 30)), stay=stay)
+            w, v = world_case(at_reqs, script, la, 1, False, policy=pol, granularity="attrs", max_steps=8000)
+            judge(at_reqs, script, waited, la, 1, False, "attrs", w, v, do_conf=False)
+            w_stats["attrs_nonwaiting_client_runs"] += 1
     # generated pipelines (including the class of the former F5/F6) under random schedules
     n_gen = 5000 if thorough else 400
     for it in range(n_gen):
         reqs = H.gen_pipeline(rng, allow_kf=(it % 4 == 0), n=rng.choice([2, 2, 3]))
-        mode = rng.choice(["same_read", "later_read"])
+        mode = rng.choice(["same_read", "later_read", "split_same", "split_body", "eager_same", "eager"])
         script, waited = H.world_script(reqs, mode)
         la = rng.choice([0, 1, 2])
         nw = rng.choice([1, 2])
@@ -342,16 +361,33 @@ def run(ctx):
     ex = explore(run_case, 3 if thorough else 2, limit=ex_limit)
     w_stats["explore_runs"] = ex["runs"]
     w_stats["explore_truncated"] = int(ex["truncated"])
+    # ... and of the same pipeline with a client that sends half of the body before waiting
+    ex2_reqs = [H.Req(0, "get"), H.Req(1, "expect_cl", b"wxyz")]
+    ex2_script, ex2_waited = H.world_script(ex2_reqs, "split_same")
+
+    def run_case2(prefix):
+        w = H.make_world(ex2_reqs, ex2_script, schedule=prefix, lookahead=0, n_workers=1, max_steps=3000)
+        v = w.run()
+        judge(ex2_reqs, ex2_script, ex2_waited, 0, 1, False, "locks", w, v)
+        return w.sched
+
+    ex2 = explore(run_case2, 3 if thorough else 2, limit=ex_limit)
+    w_stats["explore2_runs"] = ex2["runs"]
+    w_stats["explore2_truncated"] = int(ex2["truncated"])
     cov["explore"] = {"scenario": "GET /r0 + head of expecting POST /r1 in one send, client waits, then body",
                       "max_preemptions": 3 if thorough else 2, "runs": ex["runs"],
-                      "per_preemption_level": ex["per_preemption_level"], "truncated": ex["truncated"]}
+                      "per_preemption_level": ex["per_preemption_level"], "truncated": ex["truncated"],
+                      "second_scenario": "the same pipeline, the client sends half of the body before waiting for the interim response",
+                      "second_runs": ex2["runs"], "second_per_preemption_level": ex2["per_preemption_level"],
+                      "second_truncated": ex2["truncated"]}
 
-    for reqs, script, la, nw, bf, gran, w, probs in mon_fail[:3]:
+    mon_fail.sort(key=lambda t: (len(t[0]), len(t[6].sched.choices)))
+    for reqs, script, la, nw, bf, gran, w, probs, waited in mon_fail[:3]:
         ctx.report("world-monitor:" + probs[0][:40], "C19 monitor fails on an interleaved run: " + "; ".join(probs[:2]),
-                   world_replay_dict("world", reqs, script, la, nw, bf, gran, w, probs))
-    for reqs, script, la, nw, bf, gran, w, prob in conf_fail[:2]:
+                   world_replay_dict("world", reqs, script, la, nw, bf, gran, w, probs, waited))
+    for reqs, script, la, nw, bf, gran, w, prob, waited in conf_fail[:2]:
         ctx.report("K-chanexpect:" + prob.split(":")[0][-30:], "real trace not allowed by Model/ChanExpect.v: " + prob,
-                   world_replay_dict("conformance", reqs, script, la, nw, bf, gran, w, prob))
+                   world_replay_dict("conformance", reqs, script, la, nw, bf, gran, w, prob, waited))
     ctx.oblige("search (interleaved): C19 monitor holds on every run outside the class of F18 (C04)", not mon_fail,
                "%d violating runs" % len(mon_fail))
     ctx.oblige("K-chanexpect: every observed transition is a step of Model/ChanExpect.v with the same abstract state",
@@ -398,12 +434,7 @@ def replay(data):
     if kind in ("world", "conformance"):
         reqs = [H.Req.from_json(d) for d in data["requests"]]
         script = script_from_json(data["client_script"])
-        waited = []
-        n = 0
-        for s in script:
-            if s[0] == "wait_interim":
-                n += 1
-        waited = [r.idx for r in reqs if r.asks and r.payload() and not r.refused]
+        waited = data.get("waited", [s[1] for s in script if s[0] == "wait_interim"])
         w, v = world_case(reqs, script, data["lookahead"], data["n_workers"], data["big_first"],
                           schedule=data["choices"], granularity=data.get("granularity", "locks"))
         probs = H.world_monitor(w, reqs, waited, v, data["big_first"])
